@@ -179,7 +179,7 @@ board_proof! {
 // O-C10.ctor.build: the board returned by build() carries the hash of its position: built from the empty
 // board (no features, hash 0) through the four writers only; feature accounting through their contracts
 hash_proof! {
-    #[kani::unwind(66)]
+    #[kani::unwind(100)]
     fn c10g_build_hash() {
         let st = any_builder();
         let p = pos_of_builder(&st);
